@@ -17,7 +17,9 @@ def quat_z(yaw):
 
 
 def write(root, samples, categories, vis_levels=("full", "most", "partial", "none"), lidar_channel="LIDAR_CONCAT",
-          extra_camera=False, attributes=("vehicle_state.moving",), scene_name="scene0", with_visibility=True):
+          extra_camera=False, attributes=("vehicle_state.moving",), scene_name="scene0", with_visibility=True, scene_of=None):
+    """scene_of: optional list, scene index of every sample row (rows of several scenes may alternate in the sample table, as in a
+    dataset merged from overlapping logs and sorted by time); prev/next links stay inside a scene."""
     ann_dir = os.path.join(root, "annotation")
     os.makedirs(ann_dir, exist_ok=True)
     T = {k: [] for k in ["category", "attribute", "visibility", "instance", "sensor", "calibrated_sensor", "ego_pose", "log",
@@ -42,13 +44,18 @@ def write(root, samples, categories, vis_levels=("full", "most", "partial", "non
     T["log"].append(dict(token="log0", logfile="", vehicle="v", date_captured="2020-01-01", location="loc"))
     T["map"].append(dict(token="map0", log_tokens=["log0"], category="semantic_prior", filename=""))
     n = len(samples)
-    T["scene"].append(dict(token="scene0", log_token="log0", nbr_samples=n, first_sample_token=tok("s", 0), last_sample_token=tok("s", n - 1),
-                           name=scene_name, description=""))
+    scene_of = list(scene_of) if scene_of is not None else [0] * n
+    for sc in sorted(set(scene_of)):
+        rows = [i for i in range(n) if scene_of[i] == sc]
+        T["scene"].append(dict(token="scene%d" % sc, log_token="log0", nbr_samples=len(rows), first_sample_token=tok("s", rows[0]),
+                               last_sample_token=tok("s", rows[-1]), name=scene_name if sc == 0 else "%s_%d" % (scene_name, sc), description=""))
     inst_anns = {}
     aidx = 0
     for i, s in enumerate(samples):
-        T["sample"].append(dict(token=tok("s", i), timestamp=s["ts"], prev=tok("s", i - 1) if i > 0 else "", next=tok("s", i + 1) if i < n - 1 else "",
-                                scene_token="scene0"))
+        same = [j for j in range(n) if scene_of[j] == scene_of[i]]
+        pos = same.index(i)
+        T["sample"].append(dict(token=tok("s", i), timestamp=s["ts"], prev=tok("s", same[pos - 1]) if pos > 0 else "",
+                                next=tok("s", same[pos + 1]) if pos < len(same) - 1 else "", scene_token="scene%d" % scene_of[i]))
         if len(s["ego"]) == 3:
             ex, ey, eyaw = s["ego"]
             ez, epitch, eroll = 0.0, 0.0, 0.0
